@@ -153,6 +153,49 @@ def run_kani(prop, tier, obs, mods, jobs, replay_dir, known_sites):
     return records, violations, annotations, cmds
 
 
+def run_ext(prop, tier, jobs, replay_dir, known_sites, only=None):
+    """Harness crates outside rrtk (downstream view of the public macros)."""
+    records, violations, cmds = [], [], []
+    for ext in K.discover_ext():
+        hs = [h for h in ext["harnesses"] if prop in h["props"] and (tier == "thorough" or h["tier"] == "quick")
+              and (not only or only in h["name"])]
+        if not hs:
+            continue
+        res, cmd, cdir = K.run_ext_crate(ext, [h["name"] for h in hs], jobs, 3600)
+        cmds.append(cmd)
+        for h in hs:
+            r = res.get(h["name"])
+            if r is None:
+                raise Undecided("ext crate %s: harness %s did not run" % (ext["crate"], h["name"]))
+            rec = {"name": "%s[ext:%s]" % (h["name"], ext["crate"]), "engine": "kani", "config": "ext:" + ext["crate"], "harness": r["harness"],
+                   "function": h["meta"].get("fn"), "at": h["meta"].get("at"), "clause": h["meta"].get("clause"),
+                   "seconds": (r["duration_ms"] or 0) / 1000.0, "checks": r["n_checks"], "covers": r["covers"], "solver": "cadical"}
+            bad_cover = [c for c in r["covers"] if not _cover_ok(c)]
+            if r["status"] == "Success" and not bad_cover:
+                rec["status"] = "discharged"
+            elif r["status"] == "Failure" and r["failed_checks"]:
+                rec["status"] = "refuted"
+                rec["failed"] = r["failed_checks"]
+            elif bad_cover:
+                rec["status"] = "refuted"
+                rec["failed"] = [{"description": "cover %r is %s" % (c["description"], c["status"])} for c in bad_cover]
+            else:
+                raise Undecided("ext harness %s: status %r without failed checks" % (h["name"], r["status"]))
+            if rec["status"] == "refuted":
+                # native confirmation: the crate carries a #[test] twin <name>_native running the same body with concrete values
+                rc, out, _ = common.run(["cargo", "test", "--offline", "--", h["name"] + "_native"], cwd=cdir, timeout=1800)
+                native_failed = "FAILED" in out and "test result: FAILED" in out
+                rp = os.path.join(replay_dir, "%s.ext.json" % h["name"])
+                common.write_json(rp, {"property": prop, "obligation": rec["name"], "engine": "kani-ext", "crate": ext["crate"],
+                                       "failed_checks": rec["failed"], "native_twin": h["name"] + "_native",
+                                       "native_failed": native_failed, "native_output_tail": out[-1500:],
+                                       "confirmed_on_real_code": native_failed})
+                rec["replay"] = rp
+                violations.append({"site": h["name"], "replay": rp, "known": h["name"] in known_sites, "no_input": not native_failed, "rec": rec})
+            records.append(rec)
+    return records, violations, cmds
+
+
 def _cover_ok(c):
     d = (c.get("description") or "")
     st = str(c.get("status", "")).upper()
@@ -212,7 +255,7 @@ def main():
         if a.only:
             kobs = [o for o in kobs if a.only in o["harness"]]
             vobs = [o for o in vobs if a.only in o["unit"]]
-        if not kobs and not vobs:
+        if not kobs and not vobs and not any(prop in h["props"] for e in K.discover_ext() for h in e["harnesses"]):
             raise Undecided("no obligations registered for %s (vacuity guard)" % prop)
         records, violations, annotations, cmds = [], [], [], []
         if kobs:
@@ -221,6 +264,10 @@ def main():
             violations += v
             annotations += an
             cmds += c
+        xr, xv, xc = run_ext(prop, a.tier, a.jobs, replay_dir, known_sites, a.only)
+        records += xr
+        violations += xv
+        cmds += xc
         vinfo = None
         if vobs:
             r, v, vinfo, c = V.run(prop, a.tier, vobs, a.jobs, replay_dir, known_sites)
